@@ -323,10 +323,46 @@ def filter_positions(ctx):
     return n
 
 
+def repeated_rule_names(ctx):
+    """a rule name defined two or three times (each definition PASS / FAIL / SKIP by its body, or left out by its own `when`
+    guard): a clause naming the rule, plain and negated, written before, between and after the definitions, takes the status of
+    the FIRST definition that is not SKIP (RootScope::rule_status); the referring rule and the file follow. Model against the
+    implementation: status, record tree, every rule."""
+    body = {'P': 'a exists', 'F': 'a !exists', 'S': 'l[ x == 99 ].y exists'}
+    pairs = []
+    for k in (2, 3):
+        for combo in itertools.product('PFS', repeat=k):
+            for guard in ('', ' when a exists', ' when a !exists'):
+                defs = ['rule dep%s {\n  %s\n}\n' % (guard if i == 1 else '', body[c]) for i, c in enumerate(combo)]
+                for pos in range(k + 1):
+                    for ref in ('dep', 'not dep'):
+                        parts = list(defs)
+                        parts.insert(pos, 'rule r {\n  %s\n}\nrule r2 {\n  a exists\n  %s or a !exists\n}\n' % (ref, ref))
+                        pairs.append({'rules': ''.join(parts), 'data': json.dumps(VAL)})
+    if ctx.tier != 'thorough':
+        rng = random.Random(ctx.seed * 31 + 2)
+        core = [p for p in pairs if p['rules'].count('rule dep') == 2]
+        pairs = core + rng.sample([p for p in pairs if p not in core], 60)
+    out, errs = corr.run(pairs, ctx.wd, 'c02dup', loader='json')
+    if errs:
+        raise ToolingError('model evaluation failed: %r' % (errs[:1],))
+    n = 0
+    for o, pair in zip(out, pairs):
+        if o['kind'] != 'compared':
+            raise ToolingError('repeated-rule-name program not evaluated: %s' % o['kind'])
+        n += 1
+        if re.search(r'VDis|VModelOOF|NoModelOutput', o['verdict']):
+            ctx.failing('a rule name with several definitions: model and implementation disagree (%s)' % o['verdict'],
+                        {'class': 'eval-correspondence', 'rules': pair['rules'], 'data': pair['data'], 'verdict': o['verdict']}, found=False)
+    ctx.coverage['repeated_rule_name_programs'] = n
+    ctx.coverage['evaluations'] += n
+    return n
+
+
 def run(ctx):
     ctx.build()
     pr = ctx.proofs('C02')
-    n0 = aggregation(ctx, 4 if ctx.tier == 'thorough' else 3) + filter_positions(ctx)
+    n0 = aggregation(ctx, 4 if ctx.tier == 'thorough' else 3) + filter_positions(ctx) + repeated_rule_names(ctx)
     if ctx.tier == 'thorough':
         n1 = exhaustive_cnf(ctx, 3, 3) if os.environ.get('VERIF_C02_FULL') else exhaustive_cnf(ctx, 3, 2)
         n2 = generated(ctx, 4000)
